@@ -525,6 +525,33 @@ func runC04(o *out, r *rng, thorough bool, replay string) {
 					o.violate("a corrupted certificate chain is rejected", "cert-forgery-accepted", in, kind)
 				}
 			}
+			// the reported prefix: on rejection the function reports the instance and the power table that are in force for
+			// the first rejected certificate -- recomputed here by validating the certificates one at a time and keeping
+			// only what the ACCEPTING calls returned
+			{
+				wantNext, wantTbl, wantBase := next, prev, bp
+				for _, c := range cs {
+					n2, ch2, t2, e2 := certs.ValidateFinalityCertificates(g.backend, nn, wantTbl, wantNext, wantBase, c)
+					if e2 != nil {
+						break
+					}
+					wantNext, wantTbl = n2, t2
+					if ch2 != nil && !ch2.IsZero() {
+						wantBase = ch2.Head()
+					}
+				}
+				cidOf := func(pe gpbft.PowerEntries) string {
+					c, err := certs.MakePowerTableCID(pe)
+					if err != nil {
+						return "error:" + err.Error()
+					}
+					return c.String()
+				}
+				if gotNext != wantNext || cidOf(gotTable) != cidOf(wantTbl) {
+					o.violate("on rejection the valid prefix is reported: the next expected instance and the power table in force for it", "cert-prefix-report", in,
+						fmt.Sprintf("variant %s: reported next=%d table=%s, certificate-by-certificate validation accepts up to next=%d table=%s (error: %v)", kind, gotNext, cidOf(gotTable), wantNext, cidOf(wantTbl), err))
+				}
+			}
 			var certTerms []string
 			for _, c := range cs {
 				certTerms = append(certTerms, x.certTerm(c))
